@@ -340,3 +340,8 @@ def run(ctx):
     r3(ctx, fs)
     r4(ctx, fs)
     r5(ctx, fs)
+    # R6: a field read through an object variable is a derived variable; its arithmetic hull must enclose every candidate (shared with C17.R4)
+    from .C17 import new_enum_hull
+    ctx.rule('C01.R6', 'core::new_enum(type, lits, vals), int / real / tp arms: min = least lower bound and max = greatest upper bound of the candidate values (dual updates from +inf / -inf), '
+                       'the derived variable is a constant only when min == max and is bounded by x >= min, x <= max - so that a constraint on `r.f` constrains the field of the object chosen for r', floor=3)
+    new_enum_hull(ctx, fs, 'C01.R6')
